@@ -29,12 +29,13 @@ type crsTarget struct {
 }
 
 type crsTree struct {
-	files   Tree // relative to the scratch dir: "root/..." and "outside/..."
-	targets []crsTarget
-	rules   *genRulesFile
-	cfg     [6]string
-	incName string
-	testIDs []string
+	files       Tree // relative to the scratch dir: "root/..." and "outside/..."
+	targets     []crsTarget
+	rules       *genRulesFile
+	cfg         [6]string
+	incName     string
+	testIDs     []string
+	strictTests map[string]string // strict test file path -> rule id
 }
 
 var simpleBodies = []string{"newa\nnewb\n", "a+b$\n", "foo\nfob\n", "##!+ i\nfoo\nfob\n", "##!> assemble\n  a\n  ##!=>\n  b\n##!<\n", "^anchored$\n", "x{2}\ny\n",
@@ -90,12 +91,32 @@ func genCRSTree(r *Rng) *crsTree {
 	}
 	// tests
 	td := "root/tests/regression/tests/REQUEST-942-APPLICATION-ATTACK-SQLI/"
-	for i := 0; i < r.Range(1, 3); i++ {
+	// one tree in three: an earlier file with titles, a later one with both fields per test (what a
+	// counter that survives from file to file would get wrong)
+	history := r.Chance(1, 3)
+	nTests := r.Range(1, 3)
+	if history && nTests < 2 {
+		nTests = 2
+	}
+	for i := 0; i < nTests; i++ {
 		id := strconv.Itoa(base + i*10)
-		y, _ := genYaml(r)
+		y, strict := genYaml(r)
+		if history {
+			if i == 0 {
+				y, strict = genYamlMode(r, 1+r.Intn(2))
+			} else {
+				y, strict = genYamlMode(r, 2)
+			}
+		}
 		ext := r.Pick([]string{".yaml", ".yaml", ".yml"})
 		t.files[td+id+ext] = y
 		t.testIDs = append(t.testIDs, id)
+		if strict {
+			if t.strictTests == nil {
+				t.strictTests = map[string]string{}
+			}
+			t.strictTests[td+id+ext] = id
+		}
 	}
 	t.files[td+"README.md"] = "- test_id: 7\n"
 	t.files[td+"942990.yaml.orig"] = "- test_id: 7\n"
@@ -164,7 +185,9 @@ func underRoot(rel, sub string) bool { return strings.HasPrefix(rel, "root/"+sub
 
 func treeCommands(t *crsTree, r *Rng) []treeCmd {
 	isRA := func(rel string) bool { return underRoot(rel, "regex-assembly/") && strings.HasSuffix(rel, ".ra") }
-	isRules := func(rel string) bool { return underRoot(rel, "rules/") && strings.Contains(filepath.Base(rel), "-942-") }
+	isRules := func(rel string) bool {
+		return underRoot(rel, "rules/") && strings.Contains(filepath.Base(rel), "-942-")
+	}
 	isTest := func(rel string) bool {
 		b := filepath.Base(rel)
 		if !underRoot(rel, "tests/regression/tests/") {
@@ -300,6 +323,21 @@ func suiteTreeFrame(env *Env, res *Result) {
 		for p := range before {
 			if _, ok := x.after[p]; !ok && !strings.HasSuffix(p, "/") {
 				res.addFailure(Failure{Kind: "C15", Shape: "c15_file_deleted", Input: input, Detail: p})
+			}
+		}
+		// C13 on the files a successful rewriting run leaves behind (every file of --all is numbered from 1)
+		if strings.HasPrefix(x.cmd.name, "renumber-tests") && !x.cmd.inspect && x.res.Exit == 0 {
+			for p, id := range x.t.strictTests {
+				if x.cmd.name != "renumber-tests --all" && x.cmd.name != "renumber-tests --all -o github" && !strings.HasSuffix(x.cmd.name, " "+id) {
+					continue
+				}
+				in, out := before[p], x.after[p]
+				checkRenumberPropertyF(func(shape, detail string) {
+					if shape == "renumber_not_idempotent" {
+						return
+					}
+					res.addFailure(Failure{Kind: "C13", Shape: shape, Input: map[string]interface{}{"command": strings.Join(x.cmd.args, " "), "file": p, "tree": before}, Detail: detail})
+				}, id, in, out, out)
 			}
 		}
 		if x.cmd.model != "" {
@@ -444,6 +482,10 @@ func suiteTreeAll(env *Env, res *Result) {
 			continue
 		}
 		if len(ok) > 4 {
+			// the files of the targets that are not run singly must not stay for --all either
+			for _, tg := range ok[4:] {
+				delete(t.files, "root/regex-assembly/"+tg.File)
+			}
 			ok = ok[:4]
 		}
 		jobs = append(jobs, &job{t: t, singles: ok})
@@ -574,6 +616,32 @@ type faultCase struct {
 	// for --all runs that legitimately write earlier files before failing (known finding
 	// C16-update-all-partial): the rule with this id must keep its line whatever else happens
 	mustKeep string
+}
+
+// number of lines containing SecRule after the first line that contains id:<id> in the rules file
+func secRuleLinesAfterID(files Tree, arg string) int {
+	if len(arg) < 6 {
+		return 0
+	}
+	id := arg[:6]
+	for p, c := range files {
+		if !strings.HasPrefix(p, "root/rules/") || !strings.HasSuffix(p, ".conf") {
+			continue
+		}
+		lines := strings.Split(c, "\n")
+		for i, l := range lines {
+			if strings.Contains(l, "id:"+id) {
+				n := 0
+				for _, m := range lines[i+1:] {
+					if strings.Contains(m, "SecRule") {
+						n++
+					}
+				}
+				return n
+			}
+		}
+	}
+	return 0
 }
 
 func suiteTreeFaults(env *Env, res *Result) {
@@ -743,7 +811,13 @@ func suiteTreeFaults(env *Env, res *Result) {
 		}
 		sort.Strings(changed)
 		if o.res.Exit == 0 {
-			res.addFailure(Failure{Kind: "C16", Shape: c.shape + "_exit_zero", Input: input, Detail: fmt.Sprintf("exit 0; stdout %q; changed %v", clip(o.res.Stdout, 200), changed)})
+			shape := c.shape + "_exit_zero"
+			if c.name == "chain_offset_beyond_chain/update" && len(c.args) == 3 && secRuleLinesAfterID(c.files, c.args[2]) >= 9 {
+				// the recorded defect C11-chain-beyond seen from C16: the offset is counted in SecRule
+				// lines after the id, across rule boundaries, so it lands in a later rule
+				shape = "c16_chain_offset_lands_in_later_rule"
+			}
+			res.addFailure(Failure{Kind: "C16", Shape: shape, Input: input, Detail: fmt.Sprintf("exit 0; stdout %q; changed %v", clip(o.res.Stdout, 200), changed)})
 			if strings.Contains(c.name, "stored_name_of_other_file") {
 				// the same observation is a C08 violation: --all did for this file what the file alone does not
 				res.addFailure(Failure{Kind: "C08", Shape: "c08_state_of_one_file_reaches_another", Input: input, Detail: fmt.Sprintf("exit 0; changed %v", changed)})
